@@ -43,6 +43,9 @@ def ensure_env():
 def child_env():
     env = dict(os.environ)
     env["PYTHONPATH"] = VERIF
+    if os.environ.get("VERIF_REPO"):
+        # internal use (seed evaluation in a scratch worktree): import csvpath from there instead of /repo
+        env["PYTHONPATH"] = VERIF + os.pathsep + os.environ["VERIF_REPO"]
     env["PYTHONHASHSEED"] = "0"
     env.pop("CSVPATH_CONFIG_PATH", None)
     env["PYTHONDONTWRITEBYTECODE"] = "1"
